@@ -301,6 +301,9 @@ func (e *Engine) reportPanic(r interface{}) {
 	switch x := r.(type) {
 	case goPanic:
 		msg = normalisePanic(x.msg)
+		if x.stack != nil {
+			e.stack = x.stack
+		}
 	case frozenWrite:
 		kind, msg = "frozen", x.msg
 	}
